@@ -577,3 +577,13 @@ CHECKS["C06"]["text"] += (
     " The temporary features come as a set (temperature and two ML scores "
     "whose replacement changes every event's class); ml_class is among the "
     "features read.")
+CHECKS["C04"]["text"] += (
+    " A temporary feature can be assigned through any level of a hierarchy "
+    "(the root then holds it with NaN for the events that level does not "
+    "show; the assignment refreshes that level and its ancestors only); "
+    "histories 'pending range filter, assignment, exclusion, refresh' are "
+    "enumerated separately.")
+CHECKS["C04"]["note"] += (
+    " Known finding: a manual edit made on a level younger than the one a "
+    "temporary feature was just assigned through is lost at the next "
+    "refresh.")
